@@ -71,10 +71,11 @@ MANIFEST = dict(
           "forms wfCheck / unimodalCheck, proved sound and evaluated in Lean on every mesh of the run; __init__ is "
           "proved to produce MeshWF data iff-style under the KeyError precondition); the model is tied to the code by a correspondence harness "
           "(branch ids, points, cached vertex index, F and exact Q arithmetic) and an independent oracle runs on the "
-          "real code."),
+          "real code. " 
+          "Link theorems (regenerated from today's source by py2lean on every run, D3/Gen/Link03*.lean) tie utils.norm_vector, utils.transform_point, utils.plane_basis_from_normal and geometry.support_function_{sphere,box,ellipsoid,cylinder,capsule,cone,disk} to the model's support functions (point component) by rfl / unfold-split-rfl for every input (plane basis: on the model's non-error case). "),
     note=("trusted: Lean kernel + Mathlib, axioms propext/Classical.choice/Quot.sound; exact-real semantics; order of "
           "Python set iteration taken from the implementation; correspondence harness (sampling)."),
-    technique="Lean 4 proof on hand-written model + correspondence (branch ids, exact on lattice inputs) + oracle",
+    technique="Lean 4 proof on hand-written model + correspondence (branch ids, exact on lattice inputs) + oracle + py2lean-regenerated kernels linked to the model by theorem",
     design="§7 C03")
 
 TIE = 1e-12      # relative margin of a branch decision below which model/code may legitimately differ
